@@ -29,7 +29,7 @@ CLAIMED = {
             "DESIGN.md section 4, C06"),
     "C07": ("exploration",
             "metamorphic/oracle property-based testing: abstract values rendered through a layout grammar driven by a generated choice stream must parse back to the abstract value, one-shot and re-chunked",
-            "Abstract cnf/wcnf/gcnf formulas and solver logs are rendered by an independent renderer that exercises every granted layout choice (whitespace, CRLF, blank and comment lines incl. inside split clauses, clause splits, leading zeros, -0, missing final newline; split value lines, empty value lines, junk lines) in generated combinations; the parsed value must equal the abstract value. The evidence carries per-feature and per-pair hit counts.",
+            "Abstract cnf/wcnf/gcnf formulas and solver logs are rendered by an independent renderer that exercises every granted layout choice (whitespace, CRLF, blank and comment lines incl. inside split clauses, clause splits, leading zeros, -0, missing final newline; split value lines, empty value lines, junk lines) in generated combinations; the parsed value must equal the abstract value. The evidence carries per-feature and per-pair hit counts. A scale oracle inserts 10^3..4x10^5 blank/comment lines between two tokens of a clause (2 MiB stack; also in one extra shard built without optimisation).",
             "The layout grammar only contains documented/tested choices; trusts the renderer in harness/src/gen.rs.",
             "DESIGN.md section 4, C07"),
     "C08": ("exploration",
@@ -54,12 +54,12 @@ CLAIMED = {
             "DESIGN.md section 4, C12"),
     "C05": ("exploration",
             "robustness fuzzing with a structured generator (grammar, mutation, hostile headers, arbitrary bytes) in isolated worker processes with a counting global allocator, CPU watchdog and crash attribution; two build profiles",
-            "300k (quick) / 5M (thorough) inputs per run over all nine parser entry points, five literal types and both configs, in a build with overflow checks and debug assertions and in a release build. Oracle: the result is a value (no panic, signal, abort, CPU-limit hit) and the peak heap during the parse is at most 128 x delivered bytes + 256 KiB, measured by a counting allocator; a worker that dies is attributed to the case it was running and reported with a replay file. Input classes include documents behind byte order marks, one token repeated up to 10^6 times inside a valid document, and feeds that end in an injected I/O error.",
+            "300k (quick) / 5M (thorough) inputs per run over all nine parser entry points, five literal types and both configs, in a build with overflow checks and debug assertions and in a release build. Oracle: the result is a value (no panic, signal, abort, CPU-limit hit) and the peak heap during the parse is at most 128 x delivered bytes + 256 KiB, measured by a counting allocator; a worker that dies is attributed to the case it was running and reported with a replay file. Input classes include documents behind byte order marks, one token repeated up to 10^6 times inside a valid document, and feeds that end in an injected I/O error. The repeated-token class also runs on a 2 MiB stack and in one extra shard built without optimisation.",
             "Heap-bound constants are judgement calls documented in DESIGN.md; hang = 60 CPU-seconds twice.",
             "DESIGN.md section 4, C05"),
     "C02": ("exploration",
             "stateful property-based testing: proptest-generated operation histories x read schedules x constructors, every observer compared with a Vec+cursor reference model after every step",
-            "Generated reader histories (200k quick / 5M thorough, plus long inputs with 1000/4096/16384-byte chunks) are interpreted against the real DeferredReader and a reference model; buf/buf_len/buf_ptr/position/mark/is_complete/is_at_end/io_error and the results of request*, advance_with_buf and check_io_error are compared after every operation. Failures are shrunk by proptest and stored as JSON replays.",
+            "Generated reader histories (200k quick / 5M thorough, plus long inputs with 1000/4096/16384-byte chunks) are interpreted against the real DeferredReader and a reference model; buf/buf_len/buf_ptr/position/mark/is_complete/is_at_end/io_error and the results of request*, advance_with_buf and check_io_error are compared after every operation. Also: interruption storms, offsets next to usize::MAX, calls documented to panic (caught; state unchanged), 0.3..1 MB inputs with look-ahead up to 700 KB. Failures are shrunk by proptest and stored as JSON replays.",
             "Trusts the scheduled source (harness/src/source.rs) and the model in harness/src/reader_model.rs; sampling only, position wrap-around unreachable.",
             "DESIGN.md section 4, C02"),
     "C11": ("exploration",
@@ -74,17 +74,17 @@ CLAIMED = {
             "DESIGN.md section 4, C13"),
     "C14": ("exploration",
             "stateful property-based testing with out-of-contract calls caught by catch_unwind, lying sources and panicking sinks; model comparison after every caught panic; run with debug assertions, in release mode and under AddressSanitizer",
-            "Reader and writer histories extended with calls documented to panic (advance past the buffer), sources that over-report and sinks that panic are executed in three builds (debug assertions + overflow checks, release, release + AddressSanitizer). After every step and every caught panic the exposed window must have the model's length and content; documented panics must happen; buf_write_ptr must never claim space it does not have. Worker crashes (signals, sanitizer aborts) are attributed to the running case and reported as violations.",
+            "Reader and writer histories extended with calls documented to panic (advance past the buffer), sources that over-report and sinks that panic are executed in three builds (debug assertions + overflow checks, release, release + AddressSanitizer). After every step and every caught panic the exposed window must have the model's length and content; documented panics must happen; buf_write_ptr must never claim space it does not have. Worker crashes (signals, sanitizer aborts) are attributed to the running case and reported as violations. The parsers' raw 8-byte loads are covered by running the C01 one-shot/re-chunked comparison in the same three builds; histories also set absurd chunk sizes (usize::MAX - k).",
             "ASan shards need the nightly toolchain; stale reads inside the reader's own allocation are only visible through wrong content.",
             "DESIGN.md section 4, C14"),
     "C16": ("exploration",
             "complete small-scope enumeration (all strings over {SP,TAB,CR,LF,x} up to length 6 x offsets x feeds x patterns) plus proptest sampling, against reference scanners and a delivered-byte counter",
-            "tabs_or_spaces, newline, next_newline and fixed are compared with reference implementations on every string over a 5-letter alphabet up to length 6, every start offset, three feeds (fully buffered, bytewise with chunk 1, 3-byte chunks) and every prefix/wrong-byte/too-long pattern; returned offset, unchanged cursor and window, and the number of bytes pulled from the source (<= bytes needed to decide + chunk - 1) are checked. Sampled beyond the small scope with arbitrary bytes and generated feeds, and with strings made of runs of up to 40 KB (long lines and blank runs across chunk boundaries).",
+            "tabs_or_spaces, newline, next_newline and fixed are compared with reference implementations on every string over a 5-letter alphabet up to length 6, every start offset, three feeds (fully buffered, bytewise with chunk 1, 3-byte chunks) and every prefix/wrong-byte/too-long pattern; returned offset, unchanged cursor and window, and the number of bytes pulled from the source (<= bytes needed to decide + chunk - 1) are checked. Sampled beyond the small scope with arbitrary bytes and generated feeds, and with strings made of runs of up to 40 KB (long lines and blank runs across chunk boundaries), on a 2 MiB stack and additionally in one extra shard built without optimisation.",
             "Trusts the reference scanners in harness/src/props/c16.rs.",
             "DESIGN.md section 4, C16"),
     "C15": ("exploration",
             "complete enumeration of the finite combinator domain + proptest-drawn payloads against a reference semantics table with closure invocation counters",
-            "Every (combinator, input case, continuation result) combination of the 15 combinators is executed and compared with a reference table written from the documentation (result value, closure invocation count, closure argument, mutation); payload values are additionally sampled by proptest. Each combination runs in four evaluation contexts: i64 payloads with capturing closures or zero-sized payloads with stateless fn items, evaluated plainly or inside a destructor while the thread unwinds. The domain is finite, so the enumeration is complete (exhaustive: true).",
+            "Every (combinator, input case, continuation result) combination of the 15 combinators is executed and compared with a reference table written from the documentation (result value, closure invocation count, closure argument, mutation); payload values are additionally sampled by proptest. Each combination runs in 16 evaluation contexts (i64 payloads with capturing closures or zero-sized payloads with fn items; plainly or inside a destructor while the thread unwinds; plainly or inside 1500 active continuations of the combinator under test; at one or at three stack positions) and once more while 300 threads are parked inside each combinator in turn. The domain is finite, so the enumeration is complete (exhaustive: true).",
             "Trusts the reference table in harness/src/props/c15.rs; payload types are i64 and () (the combinators are parametric).",
             "DESIGN.md section 4, C15"),
 }
